@@ -20,7 +20,7 @@ class NullLogger:
 
     def _no(self, *args, **kwds):
         pass
-    debug = info = warning = error = exception = critical = log = _no
+    debug = info = warning = warn = error = exception = critical = log = _no
 
     @property
     def parent(self):
